@@ -69,7 +69,7 @@ def gen_cell(rng, col, cls, upper=False, tagged=False):
     else:
         raise AssertionError(cls)
     if tagged:
-        words = [("<%s>%s</%s>" % (t, w, t)) if rng.random() < 0.5 else w for w in words for t in [rng.choice(["b", "info", "comment", "u"])]]
+        words = [("<%s>%s</%s>" % (t, w, t)) if rng.random() < 0.5 else w for w in words for t in [rng.choice(["b", "info", "comment", "u", "hl"])]]  # hl: a style the application adds to the I/O's formatter later
     return " ".join(words)
 
 
@@ -104,6 +104,12 @@ class Lab(object):
 
         self.AnsiFormatter, self.PlainFormatter, self.BufferedIO = AnsiFormatter, PlainFormatter, BufferedIO
         self.Alignment, self.Table, self.Rectangle, self.TableStyle = Alignment, Table, Rectangle, TableStyle
+
+    def add_late_style(self, io):
+        from clikit.api.formatter import Style
+
+        for out in (io.output, io.error_output):
+            out.formatter.add_style(Style("hl").fg("black").bg("yellow"))
 
     def style(self, name, padding, aligns):
         st = getattr(self.TableStyle, name)()
@@ -250,6 +256,8 @@ def judge(sh, lab, case):
     sh.tag("long_columns", len(long_cols))
     io = lab.BufferedIO("", lab.AnsiFormatter(forced=True) if case["ansi"] else lab.PlainFormatter())
     io.set_terminal_dimensions(lab.Rectangle(case["width"], 20))
+    if case["tagged"]:
+        lab.add_late_style(io)
     t = lab.Table(lab.style(case["style"], case["padding"], case["aligns"]))
     hdr = copy.deepcopy(case["header"])
     rows = copy.deepcopy(case["rows"])
@@ -277,6 +285,8 @@ def judge(sh, lab, case):
     # the table object has no public accessor for its rows: a modified table shows as a different second render
     io2 = lab.BufferedIO("", lab.AnsiFormatter(forced=True) if case["ansi"] else lab.PlainFormatter())
     io2.set_terminal_dimensions(lab.Rectangle(case["width"], 20))
+    if case["tagged"]:
+        lab.add_late_style(io2)
     try:
         t.render(io2, case["indent"])
         if io2.fetch_output() != out:
@@ -285,6 +295,32 @@ def judge(sh, lab, case):
         sh.violate("table-modified", case, "a second render of the same table raised %r" % (e,), classify(case, "raises"))
     if io.fetch_error():
         sh.violate("wrong-stream", case, "render wrote to the error output")
+    if hash(out) % 3 == 0 and not (case["tagged"] and classify(case, "raises")):
+        # rows of the wrong size are refused; a refused call leaves the table as it was
+        refused = []
+        for what, call in (("set_header_row", lambda: t.set_header_row(["X"] * (n + 1))), ("add_row", lambda: t.add_row(["X"] * (n + 1))),
+                           ("add_rows", lambda: t.add_rows([["X"] * (n + 2)])), ("set_header_row-short", lambda: t.set_header_row(["X"] * (n - 1)) if n > 1 else t.set_header_row([]))):
+            try:
+                call()
+                refused.append((what, False))
+            except ValueError:
+                refused.append((what, True))
+            except Exception as e:
+                sh.violate("table-modified", case, "%s with a row of the wrong size raised %r" % (what, e))
+        io5 = lab.BufferedIO("", lab.AnsiFormatter(forced=True) if case["ansi"] else lab.PlainFormatter())
+        io5.set_terminal_dimensions(lab.Rectangle(case["width"], 20))
+        if case["tagged"]:
+            lab.add_late_style(io5)
+        sh.count("refused_row_checks")
+        if not all(r for _, r in refused):
+            sh.violate("table-modified", case, "a row of the wrong size was accepted: %r" % ([w for w, r in refused if not r],))
+        else:
+            try:
+                t.render(io5, case["indent"])
+                if io5.fetch_output() != out:
+                    sh.violate("table-modified", case, "after refused set_header_row / add_row calls the table renders differently (%d vs %d bytes)" % (len(io5.fetch_output()), len(out)))
+            except Exception as e:
+                sh.violate("table-modified", case, "after refused set_header_row / add_row calls rendering raised %r" % (e,))
     if hash(out) % 4 == 0:
         new_hdr = [(c + " N").upper() if c else "N" for c in (case["header"] or case["rows"][0])]
         new_hdr = [h if h.strip() else "N" for h in new_hdr]
